@@ -72,7 +72,7 @@ def run(ctx):
     if not (can_run and ok_d):
         common.broken_without_input(ctx, "build", (ctx.notes[-1] if ctx.notes else "") + log_d)
         return
-    k = 4 if ctx.thorough() else 1
+    k = ctx.scale(4)
     rng = ctx.rng
     failing, dis = [], []
     # ---- programs and their cuts -------------------------------------------------------------------
